@@ -18,6 +18,7 @@ from props import resultslib as rl
 from props import c03
 
 PID = "C05"
+TABLES = ["C04", "RC"]
 # features of a call graph that make results depend on processing order through the shared store
 ORDER_FEATURES = ["compound-argument", "same-call-on-two-paths", "cycle"]
 
@@ -117,13 +118,18 @@ STAR_PROJECTS = [
 ]
 
 
+def c05stages_rule():
+    from props import c05stages
+    return c05stages.RULE
+
+
 def run(tier, seed, build):
     res = common.Result(PID)
     res.rule = ("programs from the C03 generator; for each: K permutations of the top-level definitions, variants with "
                 "unrelated functions added and with functions unreachable from a root removed (in-process, real analyser + "
                 "real result generation, per-function results compared by name), the Lean model must reproduce every "
                 "variant; plus real CLI runs of whole projects under several PYTHONHASHSEED values (stdout bytes compared). "
-                "non-trivial = distinct base program with >= 1 resolvable call")
+                "non-trivial = distinct base program with >= 1 resolvable call. " + c05stages_rule())
     rng = random.Random(seed)
     n_prog, n_perm = (60, 4) if tier == "quick" else (600, 8)
     seeds = [0, 1, 2, 3] if tier == "quick" else list(range(12))
@@ -287,12 +293,47 @@ def run(tier, seed, build):
                                                 "outputs": sorted({out[:400] for _, (rc, out, _) in runs})[:3]}})
     finally:
         shutil.rmtree(tmp, ignore_errors=True)
+    from props import c05stages
+    c05stages.run_all(res, tier, seed, model)
     res.assumptions = ["CPython set iteration order is represented in the model by explicit list orders taken from the real run",
-                       "hash-seed independence is sampled over a few PYTHONHASHSEED values"]
+                       "hash-seed independence is sampled over a few PYTHONHASHSEED values",
+                       "[interp] 'already generated once in the same process' = rattr driven as a library the way main() drives it "
+                       "(a new Config per analysis, parse_and_analyse_file + generate_results_from_ir), every functools cache of "
+                       "rattr left alone between the analyses; the reference is the same analysis as the FIRST one of a fresh interpreter",
+                       "[interp] 'unrelated code' in a project = a definition no compared function transitively calls under Python's "
+                       "scoping, in the target or in a followed import, including one whose name equals a definition of another file",
+                       "multi-file result generation: own IRs and call resolution are taken from the real run (as in C03); the model is "
+                       "Results.generate with roots = the target's functions over the store of ALL files"]
     return res
 
 
 def replay(path):
     j = json.load(open(path))
     print(json.dumps(j, indent=1)[:6000])
+    case = j.get("case") or {}
+    if isinstance(case, dict) and ("base_files" in case or "history" in case):
+        # re-run a project / history case against the rattr under test
+        from props import c05proj as cp
+        tp = cp.TempProjects()
+        try:
+            if "history" in case:
+                d = tp.new(case["files"])
+                out = cp.history_run(d, case["history"], style=case.get("style", "main"))
+                fresh = cp.history_run(d, [case["history"][case["step"]]], style="main")
+                print("---- re-run: step", case["step"], "of", case["history"], "vs the same target analysed first in a fresh interpreter")
+                a, b = out["steps"][case["step"]]["doc"], fresh["steps"][0]["doc"]
+                for fn in sorted(set(a or {}) | set(b or {})):
+                    if (a or {}).get(fn) != (b or {}).get(fn):
+                        print(fn, "\n  this step:", (a or {}).get(fn), "\n  fresh    :", (b or {}).get(fn))
+            else:
+                d = tp.new(case["base_files"])
+                b = cp.run_main(d)
+                cp.write_files(d, case["files"])
+                v = cp.run_main(d)
+                print("---- re-run: base vs variant", case.get("variant"), b["outcome"], v["outcome"])
+                for fn in sorted(set(b["doc"] or {}) & set(v["doc"] or {})):
+                    if b["doc"][fn] != v["doc"][fn]:
+                        print(fn, "\n  base   :", b["doc"][fn], "\n  variant:", v["doc"][fn])
+        finally:
+            tp.close()
     return 0
